@@ -35,6 +35,24 @@ def programs(tier):
                          {"cancel": [], "reraise": False, "boom": []}], ["cp"]]
                 progs.append({"objects": {"g": ["gate"]}, "main": main, "tasks": {}, "env": env,
                               "label": f"rewrapped x{depth} env={e} sh={sh}"})
+    # a child of a task group dies of an *enclosing* scope's cancellation while the host is
+    # behind a shield; the host then shields the group's own scope and carries on inside it
+    for child in ([["wait", "g"]], [["cp"], ["wait", "g"]]):
+        for late_shield in (True, False):
+            for env in ([["cancel", "S0"], ["set", "g2"], ["set", "g"]],
+                        [["cancel", "S1"], ["set", "g2"], ["set", "g"]]):
+                body = [["spawn", "G1", "c0"],
+                        ["scope", "SHH", {"shield": True}, [["wait", "g2"]]]]
+                if late_shield:
+                    body.append(["set_shield", "G1", True])
+                body += [["cp"], ["cp"]]
+                main = [["try", [["scope", "S0", {}, [["scope", "S1", {}, [["tg", "G1", body],
+                                                                         ["cp"]]], ["cp"]]]],
+                         {"cancel": [], "reraise": False}], ["cp"]]
+                progs.append({"objects": {"g": ["gate"], "g2": ["gate"]}, "main": main,
+                              "tasks": {"c0": child}, "env": env,
+                              "label": f"group child killed by encloser {env[0][1]}, host shielded, "
+                                       f"group scope shielded afterwards={late_shield}"})
     # exception groups (with native and AnyIO cancellation leaves) reaching a cancelled scope
     for leaves_spec in (["caught", "native"], ["caught", "boom:XG"], ["caught", "native", "boom:XG"],
                         ["native", "boom:XG"], ["caught"], ["native"]):
